@@ -12,7 +12,8 @@ SENTINEL = b'SENTINEL-OLD-IMAGE'
 BASE = {'addr_bits': 16, 'origin': 0, 'page_size': 4, 'pre_zones_op': 'ZonesA', 'pre_zones': [('z1', 8, 11), ('z2', 10, 13)],
         'pre_data_op': 'DataA', 'pre_data': [('pd1', 6, 85, 2)]}
 FORMATS = [None, 'listing', 'minhex', 'hex', 'intel_hex']
-FATAL = [('unresolvable label', 'ld8 undefined_label_xyz'), ('unresolvable label in data', '.byte undefined_label_xyz'),
+FATAL = [('unresolvable label', 'ld8 undefined_label_xyz'), ('unresolvable label in a zero-length fill', '.fill 0, undefined_label_xyz'),
+         ('unresolvable label in a fill count', '.fill undefined_label_xyz, 0'), ('unresolvable label in an expression', 'ld16 undefined_label_xyz + 1'), ('unresolvable label in data', '.byte undefined_label_xyz'),
          ('unknown instruction', 'zzqx 1'), ('statement no variant accepts', 'mov 5'),
          ('value its field cannot hold', 'ld8 300'), ('value its field cannot hold (negative)', 'ld8 0-129'),
          ('value its field cannot hold (16 bit)', 'ld16 65536'), ('value its field cannot hold (4 bit)', 'ld4 16'),
